@@ -15,6 +15,9 @@ LIMIT_BITS = 600
 CONC_CAP = 64          # max values when a symbolic value has to become concrete (fork by value)
 MAX_DECISIONS = 4000   # per path
 SOLVER_TIMEOUT_MS = 20000
+import os as _os
+FRESH_QFBV = bool(_os.environ.get('SYMX_FRESH'))
+INCR_SLICE_MS = 250
 
 
 class EngineLimit(BaseException):
@@ -32,7 +35,9 @@ class PathAbort(BaseException):
 class Explorer:
     def __init__(self):
         self.solver = z3.Solver()
-        self.solver.set('timeout', SOLVER_TIMEOUT_MS)
+        self.solver.set('timeout', INCR_SLICE_MS)
+        self.fresh_mode = FRESH_QFBV
+        self.fallbacks = 0
         self.worklist = []
         self.decisions = []
         self.pos = 0
@@ -56,7 +61,7 @@ class Explorer:
         self.known = {}
         self.model = None
         self.solver.reset()
-        self.solver.set('timeout', SOLVER_TIMEOUT_MS)
+        self.solver.set('timeout', INCR_SLICE_MS)
 
     def add(self, c):
         self.solver.add(c)
@@ -72,39 +77,46 @@ class Explorer:
             except z3.Z3Exception:
                 self.model = None
 
+    def _check_fresh(self, extra):
+        """one-shot bit-blasting solver on a copy of the path condition: far faster than the incremental core on
+        arithmetic-heavy queries (measured 20x on 64-bit containment arithmetic), slower on many tiny ones"""
+        s2 = z3.SolverFor('QF_BV')
+        s2.set('timeout', SOLVER_TIMEOUT_MS * 3)
+        s2.add(*self.pc)
+        s2.add(*extra)
+        try:
+            r = s2.check()
+        except z3.Z3Exception:
+            r = z3.unknown
+        if r == z3.sat:
+            self._last_model = s2.model()
+            if not extra:
+                self.model = self._last_model
+        return r
+
     def check(self, *extra):
         t = time.time()
-        r = self.solver.check(*extra)
+        if self.fresh_mode:
+            r = self._check_fresh(extra)
+        else:
+            r = self.solver.check(*extra)
+            if r == z3.unknown:
+                # the incremental core runs under a short time slice; hard queries go to the one-shot solver
+                self.fallbacks += 1
+                if self.fallbacks >= 3:
+                    self.fresh_mode = True
+                r = self._check_fresh(extra)
+            elif r == z3.sat:
+                self._last_model = self.solver.model()
+                if not extra:
+                    self.model = self._last_model
         dt = time.time() - t
         self.tq += dt
         self.nq += 1
         if dt > 1.0:
             self.slow.append(round(dt, 2))
         if r == z3.unknown:
-            # one retry with the bit-blasting tactic solver on a copy
-            s2 = z3.SolverFor('QF_BV')
-            s2.set('timeout', SOLVER_TIMEOUT_MS * 3)
-            s2.add(*self.pc)
-            s2.add(*extra)
-            t = time.time()
-            try:
-                r = s2.check()
-            except z3.Z3Exception:
-                r = z3.unknown
-            self.tq += time.time() - t
-            self.nq += 1
-            if r == z3.sat:
-                self._last_model = s2.model()
-                if not extra:
-                    self.model = self._last_model
-                return r
-            if r == z3.unknown:
-                self.unknowns += 1
-            return r
-        if r == z3.sat:
-            self._last_model = self.solver.model()
-            if not extra:
-                self.model = self._last_model
+            self.unknowns += 1
         return r
 
     def last_model(self):
@@ -1562,6 +1574,26 @@ def sx_callm(o, name, *args, **kw):
         raise ValueError('not in list')
     elif name == 'format' and isinstance(o, str):
         if any(is_sym(a) for a in args) or any(is_sym(v) for v in kw.values()):
+            # keep format errors faithful: choices become concrete (fork), symbolic numbers are tried with a dummy value
+            def dummy(v):
+                t = type(v)
+                if t is SymChoice:
+                    return v.concretize()
+                if t is SymInt:
+                    return 0
+                if t is SymBool:
+                    return False
+                if t is SymBytes:
+                    return bytes(len(v))
+                if t in (SymStr, SymText):
+                    return 'x' * len(v)
+                return v
+            args2 = [dummy(a) for a in args]
+            kw2 = {k: dummy(v) for k, v in kw.items()}
+            if not any(is_sym(a) for a in args2) and not any(is_sym(v) for v in kw2.values()) and \
+                    not any(type(a) in (SymInt, SymBool, SymBytes, SymStr, SymText) for a in list(args) + list(kw.values())):
+                return o.format(*args2, **kw2)
+            o.format(*args2, **kw2)       # raises what the real call would raise
             return '<fmt>'
     elif name == 'pop' and isinstance(o, dict) and args and type(args[0]) is SymInt:
         return o.pop(args[0].concretize(), *args[1:])
